@@ -469,3 +469,28 @@ def rule_K_REPR(ctx, repo):
             ctx.fail('K-REPR', '%s::%s' % (m.rel, inst), 'marker %s has no constant repr' % inst,
                      'the marker object %s (class %s) can be embedded in keys but its repr is not a constant string: string/hash keys would contain '
                      'a memory address and differ between interpreter sessions' % (inst, cls_name), where)
+
+
+def rule_K_FAST(ctx, repo):
+    """fast-type unwrapping of a lone argument is only safe for types whose values never equal a flat key (a tuple)"""
+    m, classes = keymap_classes(repo)
+    init = classes['keymap'].methods.get('__init__')
+    names = set()
+    found = False
+    for n in ast.walk(init.node):
+        if isinstance(n, ast.Assign) and len(n.targets) == 1 and isinstance(n.targets[0], ast.Attribute) and n.targets[0].attr == '_fasttypes':
+            if not isinstance(n.value, (ast.Tuple, ast.List, ast.Set)):
+                continue
+            found = True
+            for t in n.value.elts:
+                for u in ast.walk(t):
+                    if isinstance(u, ast.Name) and isinstance(u.ctx, ast.Load):
+                        names.add(u.id)
+    if not found:
+        raise AnalysisError('anchor vanished: keymap._fasttypes')
+    bad = sorted(names & set(['tuple', 'list', 'dict', 'set', 'object', 'Sequence', 'Iterable', 'namedtuple']))
+    ctx.ob('K-FAST', 'keymap fasttypes %s' % sorted(names), not bad)
+    if bad:
+        ctx.fail('K-FAST', init.qual, 'fasttypes contain %s' % ','.join(bad),
+                 'the fast-type list (a lone argument of such a type is used directly as the flat key) contains %s: f((1, 2)) is then keyed exactly like f(1, 2), '
+                 'so one call is answered with the other call\'s result' % bad, '%s:%d' % (m.rel, init.node.lineno))
